@@ -111,6 +111,17 @@ def pixeldict_aliases(fnode):
                 obj = b.value.id if isinstance(b, ast.Attribute) \
                     else al[b.id]
                 al.levels[name] = (obj, bs[0].value.slice)
+    # level = <dict>.setdefault(depth, set()): the stored level set as well
+    for name, bs in binds.items():
+        if len(bs) == 1 and isinstance(bs[0], ast.Assign) and \
+                isinstance(bs[0].value, ast.Call) and \
+                isinstance(bs[0].value.func, ast.Attribute) and \
+                bs[0].value.func.attr == "setdefault" and \
+                bs[0].value.args and \
+                _is_dict(bs[0].value.func.value, al):
+            b = bs[0].value.func.value
+            obj = b.value.id if isinstance(b, ast.Attribute) else al[b.id]
+            al.levels[name] = (obj, bs[0].value.args[0])
     return al
 
 
